@@ -1,5 +1,6 @@
 """C01 Theta update sketch is an exact hash-threshold sample (DESIGN.md section 5 C01): structural clauses."""
 import theta_rules as T
+import chains
 
 
 def run(facts, tier):
@@ -9,6 +10,7 @@ def run(facts, tier):
         ("theta writes", T.theta_writes, 5, "theta is written only by min(old, x), the rebuild pivot, or reset"),
         ("pivot agreement", T.pivots, 2, "nth_element pivot index == index whose key becomes theta == new retained count"),
         ("emptiness/duplicates", T.emptiness_and_duplicates, 3, "hash_and_screen clears is_empty_ before any return; insert only after a failed find"),
+        ("canonical chains", lambda fa: chains.obligations(fa, ["theta"]), 11, "typed update overloads follow the cross-language canonicalisation contract"),
         ("builder/reset", T.builder_reset, 2, "reset() restores theta through the builder's helper; re-reads follow member resets"),
     ):
         o = f(facts)
